@@ -333,10 +333,16 @@ int main(int argc, char** argv) {
         json h(json_object_arg); h.try_emplace("h", json(half_arg, 0x3c00)); h.try_emplace("nan", json(half_arg, 0x7e00));
         for (int k = 0; k < 4; ++k) roundtrip<json>(CBOR, h, r, "json");
         // length boundaries for strings / byte strings / arrays
-        for (size_t n : {0u, 1u, 23u, 24u, 31u, 32u, 255u, 256u, 65535u, 65536u}) {
+        // (15/16: MessagePack fix headers; 23/24: CBOR; 31/32: MessagePack fixstr; 255/256, 65535/65536: every format)
+        for (size_t n : {0u, 1u, 14u, 15u, 16u, 17u, 23u, 24u, 25u, 31u, 32u, 33u, 255u, 256u, 257u, 65535u, 65536u, 65537u}) {
             json x(json_object_arg); x.try_emplace("s", std::string(n, 'x')); x.try_emplace("b", json(byte_string_arg, std::vector<uint8_t>(n, 7)));
-            json arr(json_array_arg); for (size_t i = 0; i < n && n <= 65536; ++i) arr.push_back(nullptr); x.try_emplace("a", arr);
-            for (int f = 0; f < 4; ++f) roundtrip<json>((Fmt)f, x, r, "json");
+            json arr(json_array_arg); for (size_t i = 0; i < n; ++i) arr.push_back(nullptr); x.try_emplace("a", arr);
+            json obj(json_object_arg); ojson oobj(json_object_arg);
+            for (size_t i = 0; i < n && n <= 300; ++i) { std::string k = "k" + std::to_string(i); obj.try_emplace(k, (uint64_t)i); oobj.try_emplace(k, (uint64_t)i); }   // object sizes up to 257 (sorted insertion is quadratic)
+            x.try_emplace("o", obj);
+            for (int f = 0; f < 4; ++f) { roundtrip<json>((Fmt)f, x, r, "json"); roundtrip<json>((Fmt)f, obj, r, "json"); roundtrip<ojson>((Fmt)f, oobj, r, "ojson");
+                if (f != BSON) roundtrip<json>((Fmt)f, arr, r, "json"); }
+            H.count_("regress.length_boundaries");
         }
     };
     return H.run(body, regress);
